@@ -1,6 +1,6 @@
 (* Codec: the obligations that are re-evaluated on the freshly translated programs. *)
-From NV Require Import Lib.Base Codec.Lang Codec.Def Codec.Sem Codec.Total Codec.Dispatch Codec.DispatchProofs Codec.WF Codec.RoundTrip
-  Gen.GenMsgs Gen.GenTypes Gen.GenDispatch.
+From NV Require Import Lib.Base Codec.Lang Codec.Def Codec.Sem Codec.Total Codec.LoopLemmas Codec.Dispatch Codec.DispatchProofs
+  Codec.WF Codec.RoundTrip Codec.GenDefs Gen.GenMsgs Gen.GenTypes Gen.GenDispatch.
 From Coq Require Import String.
 Open Scope N_scope.
 
@@ -15,18 +15,18 @@ Definition non_canonical : list string :=
 Lemma all_wf : forallb (fun p => wf_defb (snd p)) defs = true.
 Proof. vm_compute. reflexivity. Qed.
 
-Lemma dispatch_checked : dispatch_ok = true.
+Lemma dispatch_checked : dispatch_ok T = true.
 Proof. vm_compute. reflexivity. Qed.
 
-Lemma dispatch_pinned : tables_pinned = true.
+Lemma dispatch_pinned : tables_pinned T = true.
 Proof. vm_compute. reflexivity. Qed.
 
-Lemma headers_checked_ok : headers_checked = true.
+Lemma headers_checked_ok : headers_checked T = true.
 Proof. vm_compute. reflexivity. Qed.
 
 Lemma def_wf n d : find_def n = Some d -> wf_defb d = true.
 Proof.
-  unfold find_def. intro H. destruct (find _ defs) as [p|] eqn:E; inversion H; subst.
+  unfold Dispatch.find_def. cbn [t_defs T]. intro H. destruct (find _ defs) as [p|] eqn:E; inversion H; subst.
   apply find_some in E as [Hin _].
   pose proof all_wf as W. rewrite forallb_forall in W. exact (W p Hin).
 Qed.
@@ -36,7 +36,7 @@ Proof. intro H. apply decode_total. eapply def_wf; eassumption. Qed.
 
 Lemma part_decode_total (gmm : bool) bs : bytes_ok bs -> is_total (part_decode gmm bs).
 Proof.
-  intro Hb. unfold part_decode.
+  intro Hb. unfold Dispatch.part_decode. cbn [t_gmm_hlen t_gsm_hlen t_gmm_tix t_gsm_tix t_gmm_dec t_gsm_dec T].
   destruct (take _ bs) as [[h r]|] eqn:Et; [|exact I].
   destruct (dec_lookup _ _) as [name|] eqn:El; [|exact I].
   destruct (find_def name) as [d|] eqn:Ed.
@@ -53,7 +53,7 @@ Proof.
       destruct (nth_in_or_default (N.to_nat (if gmm then gmm_type_index else gsm_type_index)) h 0) as [Hin|Hd].
       - apply Hh. exact Hin.
       - subst ty. rewrite Hd. reflexivity. }
-    pose proof headers_checked_ok as Hc. unfold headers_checked in Hc. rewrite forallb_forall in Hc.
+    pose proof headers_checked_ok as Hc. unfold headers_checked in Hc. cbn [t_gmm_dec t_gsm_dec T] in Hc. rewrite forallb_forall in Hc.
     specialize (Hc ty (in_octets ty Hty)). apply andb_true_iff in Hc as [H1 H2].
     destruct gmm.
     + rewrite El, Ed in H1. discriminate.
@@ -62,9 +62,9 @@ Qed.
 
 Lemma plain_decode_total obs : match obs with Some bs => bytes_ok bs | None => True end -> is_total (plain_decode obs).
 Proof.
-  unfold plain_decode. destruct obs as [[|b t]|]; intro Hb; try exact I.
-  destruct (b =? epd_gmm); [apply part_decode_total; exact Hb|].
-  destruct (b =? epd_gsm); [apply part_decode_total; exact Hb|exact I].
+  unfold Dispatch.plain_decode. destruct obs as [[|b t]|]; intro Hb; try exact I.
+  destruct (b =? t_epd_gmm T); [apply part_decode_total; exact Hb|].
+  destruct (b =? t_epd_gsm T); [apply part_decode_total; exact Hb|exact I].
 Qed.
 
 Lemma all_rt : forallb (fun p => rt_defb (snd p)) defs = true.
@@ -72,7 +72,7 @@ Proof. vm_compute. reflexivity. Qed.
 
 Lemma def_rt n d : find_def n = Some d -> rt_defb d = true.
 Proof.
-  unfold find_def. intro H. destruct (find _ defs) as [p|] eqn:E; inversion H; subst.
+  unfold Dispatch.find_def. cbn [t_defs T]. intro H. destruct (find _ defs) as [p|] eqn:E; inversion H; subst.
   apply find_some in E as [Hin _].
   pose proof all_rt as W. rewrite forallb_forall in W. exact (W p Hin).
 Qed.
@@ -80,3 +80,7 @@ Qed.
 Lemma message_roundtrip n d m : find_def n = Some d -> wf_msgb d m = true ->
   exists bs, encode_def d m = Ok bs /\ decode_def d bs = Ok m.
 Proof. intros H Hw. apply roundtrip; [eapply def_rt; eassumption|exact Hw]. Qed.
+
+(* the stricter reading "a header that names a type whose body pointer is nil is an error" fails: F20 *)
+Lemma encode_nil_body_refuted : exists pm, plain_encode (Some pm) = Panic.
+Proof. exists (mkpm true [126; 0; 65] []). vm_compute. reflexivity. Qed.
